@@ -100,6 +100,10 @@ type FaultCfg struct {
 	// of the chaos phase (when SingleAt >= 0).
 	SingleAt   int
 	SingleKind Outcome
+	// StalePermille: probability that a cached read of a lagging kind is served
+	// from an older position of the cache. Lag is not a fault: it is drawn
+	// independently of the fault mode and does not count towards fault bursts.
+	StalePermille int
 }
 
 // Violation is a property violation found during a run.
@@ -512,6 +516,14 @@ func (s *Sim) decide(r *Request) Outcome {
 	}
 	idx := s.faultable
 	s.faultable++
+	staleOK := false
+	for _, o := range r.Menu {
+		staleOK = staleOK || o == Stale
+	}
+	if staleOK && s.Cfg.StalePermille > 0 && (b>>10)%1000 < s.Cfg.StalePermille {
+		s.Faults[Stale.String()]++
+		return Stale
+	}
 	if s.Cfg.SingleAt >= 0 {
 		if idx == s.Cfg.SingleAt {
 			for _, o := range r.Menu {
